@@ -369,7 +369,7 @@ PROPS = {
              "mapped/unmapped frames); non-trivial = typed output differs from the input print",
              "all clauses proved"),
     "C11": P(["C11_prefix_rejected", "C11_magic_flipped", "C11_magic_other", "C11_version_other",
-              "C11_accepted_iff_long_enough", "C11_roundtrip"],
+              "C11_accepted_iff_long_enough", "C11_short_buffer", "C11_roundtrip"],
              "Theorems about the byte layer: every strict prefix of a written file is rejected with the error kind of "
              "the first section that does not fit; flipped magic / other magic / other version give the endianness / "
              "format / version error for any buffer; a buffer is accepted iff it is as long as its header implies. "
